@@ -13,7 +13,7 @@ use proptest::test_runner::{Config, RngSeed, TestRunner};
 use serde_json::json;
 use std::sync::{Arc, Barrier};
 
-pub const RULE: &str = "generated: a corpus of N requests (valid ones from the completeness generator on both carriers with all options, and defective ones from the C13 catalogue) with their configurations. The OUTCOME of one validation is (Ok | error kind, code, status; returned method, version, URI, headers, body; principal) -- messages are deliberately excluded, divergences in them are only counted. Oracle: outcome digests are equal (i) across 3 repetitions on one thread, (ii) across T in {2,4,8,16} threads released together on a barrier, each validating a different rotation of the corpus concurrently, (iii) in freshly spawned processes (fresh hash seeds; launched under differing environments: time zone, locale, RUST_LOG, AWS_* variables, an empty environment) whose 16 threads start COLD, so their first validations race on the lazily initialised global regexes, and (iv) equal to the reference model's verdict where specified. (v) history independence on one thread: a request followed by up to six close relatives (one of 17 ingredients changed -- server region/service/clock/options, secret, token, access key, time, spelling, query, header, body, path, method, requirement; signed anew, or presented with the previous signature), each judged by the reference model; a disagreement that vanishes on a fresh thread is reported as history-dependent. Limit: the thread schedule is the OS's, sampled not enumerated. Non-trivial: a request with >= 3 query parameters or >= 3 signed headers or >= 2 prefix-matching unsigned headers; distinct by request digest.";
+pub const RULE: &str = "generated: a corpus of N requests (valid ones from the completeness generator on both carriers with all options, and defective ones from the C13 catalogue) with their configurations. The OUTCOME of one validation is (Ok | error kind, code, status; returned method, version, URI, headers, body; principal) -- messages are deliberately excluded, divergences in them are only counted. Oracle: outcome digests are equal (i) across 3 repetitions on one thread, (ii) across T in {2,4,8,16} threads released together on a barrier, each validating a different rotation of the corpus concurrently, and 8 threads hammering small groups of similar requests (one form body under ten charset labels, a request and its twins under other options, equally long uploads) for 150 (quick) / 3000 (thorough) rounds, (iii) in freshly spawned processes (fresh hash seeds; launched under differing environments: time zone, locale, RUST_LOG, AWS_* variables, an empty environment) whose 16 threads start COLD, so their first validations race on the lazily initialised global regexes, and (iv) equal to the reference model's verdict where specified. (v) history independence on one thread: a request followed by up to six close relatives (one of 17 ingredients changed -- server region/service/clock/options, secret, token, access key, time, spelling, query, header, body, path, method, requirement; signed anew, or presented with the previous signature), each judged by the reference model; a disagreement that vanishes on a fresh thread is reported as history-dependent. Limit: the thread schedule is the OS's, sampled not enumerated. Non-trivial: a request with >= 3 query parameters or >= 3 signed headers or >= 2 prefix-matching unsigned headers; distinct by request digest.";
 
 pub fn subs() -> Vec<Box<dyn AnySub>> {
     vec![Box::new(Sub {
@@ -574,6 +574,59 @@ pub fn extra(ctx: &Ctx) {
         cc.class("thread-run");
         cc.nontrivial(mix(ctx.seed, "threads", threads as u64));
         ctx.record("threads", cc);
+    }
+    // (ii-b) hot spots: a handful of SIMILAR requests (one form under ten charset labels; neighbours in the corpus, i.e.
+    // a request and its twin under other options; the equally long uploads) validated over and over by all threads at
+    // once, so that whatever state they share inside the library is contended for thousands of times
+    {
+        let mut groups: Vec<(&'static str, Vec<usize>)> = Vec::new();
+        let charset_idx: Vec<usize> = (0..n.min(80)).filter(|i| i % 7 == 3).collect();
+        groups.push(("one-form-many-charsets", charset_idx));
+        groups.push(("equally-long-uploads", (0..4.min(n)).collect()));
+        for start in [4usize, 60, 200, 500, 1200] {
+            if start + 6 <= n {
+                groups.push(("corpus-neighbours", (start..start + 6).collect()));
+            }
+        }
+        let rounds = ctx.tier.pick(150, 3000) as usize;
+        let threads = 8usize;
+        for (name, idx) in &groups {
+            if idx.is_empty() {
+                continue;
+            }
+            let group: Arc<Vec<Case>> = Arc::new(idx.iter().map(|i| c[*i].clone()).collect());
+            let want: Arc<Vec<u64>> = Arc::new(idx.iter().map(|i| base[*i].0).collect());
+            // uploads are expensive: fewer rounds
+            let r = if *name == "equally-long-uploads" { rounds / 10 + 1 } else { rounds };
+            let barrier = Arc::new(Barrier::new(threads));
+            let mut hs = Vec::new();
+            for t in 0..threads {
+                let (g, w, b) = (group.clone(), want.clone(), barrier.clone());
+                hs.push(std::thread::spawn(move || {
+                    b.wait();
+                    for round in 0..r {
+                        for k in 0..g.len() {
+                            let i = (t + k) % g.len();
+                            if outcome_digest(&g[i]).0 != w[i] {
+                                return Some((i, round));
+                            }
+                        }
+                    }
+                    None
+                }));
+            }
+            let firsts: Vec<Option<(usize, usize)>> = hs.into_iter().map(|h| h.join().unwrap_or(None)).collect();
+            let mut cc = CaseCtx::default();
+            cc.class("hot-spot-run");
+            cc.class(name);
+            cc.nontrivial(mix(ctx.seed, name, idx[0] as u64));
+            ctx.record("hot-spots", cc);
+            if let Some((t, (i, round))) = firsts.iter().enumerate().find_map(|(t, f)| f.map(|x| (t, x))) {
+                let f = Failure::new("nondeterministic:hot-spots", format!("{}: thread {} of {} got a different outcome than the single-threaded run in round {} ({} similar requests validated concurrently)", name, t, threads, round, idx.len()));
+                ctx.violation("hot-spots", &c[idx[i]], &f);
+                return;
+            }
+        }
     }
     // (iii) fresh processes, cold start with 16 racing threads
     let procs = ctx.tier.pick(8, 200);
